@@ -1893,12 +1893,13 @@ pub fn c05exec(args: &[String]) {
                 .spawn()
                 .unwrap();
             let t0 = std::time::Instant::now();
-            let deadline = std::time::Duration::from_secs(60);
+            // 60 s of the child's own CPU time (wall time only as a distant fallback: a starved child is not a hanging one)
+            let deadline = std::time::Duration::from_secs(1200);
             let status = loop {
                 match child.try_wait().unwrap() {
                     Some(s) => break Some(s),
                     None => {
-                        if t0.elapsed() > deadline {
+                        if cpu_ticks(Some(child.id())) > 6000 || t0.elapsed() > deadline {
                             let _ = child.kill();
                             let _ = child.wait();
                             break None;
@@ -1914,7 +1915,7 @@ pub fn c05exec(args: &[String]) {
             let mut why = vec![];
             let row = match (status, serde_json::from_str::<Value>(out.trim())) {
                 (None, _) => {
-                    why.push("no result within 60 s (hang or unbounded expansion)".to_string());
+                    why.push("no result within 60 s of CPU time (hang or unbounded expansion)".to_string());
                     json!({"frame": fi + 1, "strategy": strat, "err": "deadline", "finished": false, "held_beyond_window": 0, "heap_peak": 0, "win": fr.win, "valid": fr.valid})
                 }
                 (Some(st), Ok(mut row)) if st.success() => {
@@ -2118,6 +2119,10 @@ pub fn c11exec(args: &[String]) {
         if single {
             fr.push(0xE0); // FCS 8 bytes, single segment
             fr.extend_from_slice(&requested.to_le_bytes());
+        } else if c["fcs"] == "zero" {
+            fr.push(0x80); // window descriptor and a 4-byte content size field (0: the frame is empty)
+            fr.push(c["desc"].as_u64().unwrap() as u8);
+            fr.extend_from_slice(&[0, 0, 0, 0]);
         } else {
             fr.push(0x00);
             fr.push(c["desc"].as_u64().unwrap() as u8);
